@@ -170,7 +170,20 @@ def rule_blend(fx, rep):
     rep.sample({"rule": "C16-BLEND", "phase_contributions": vals, "PHASE_COUNT_MAX": pmax})
     if not good:
         bad("contributions", f"piece_phase_value_contribution returns {vals}; a negative contribution makes the midgame weight negative", pc)
-    rep.rule("C16-BLEND", n, 7, ok, "blend weights w and MAX - w of the same clamped w")
+    # the evaluation is ONE blend of the summed terms: `for_phase` truncates (`/ MAX`), so a sum of separately blended terms is a
+    # sum of several truncations and can leave [min(midgame, endgame), max(..)] of the position's totals by up to terms-1 units
+    tops = [b0 for b0 in fx.fn_bodies() if norm(b0.name).startswith("engine::eval::absolute_eval_with_trace") and b0.kind == "Fn"]
+    if len(tops) == 1:
+        tpaths = [p0 for p0 in decision_paths(tops[0], 200) if p0[1] is not None]
+        if tpaths and len(tpaths) < 200:
+            n += 1
+            worst = max(len([c0 for c0 in walk(ret0) if isinstance(c0, tuple) and c0 and c0[0] == "call" and isinstance(c0[1], str) and c0[1].endswith("PhasedEval::for_phase")]) for _c, ret0, _l in tpaths)
+            good = worst <= 1
+            rep.obligation(good)
+            if not good:
+                bad("once", f"`{tops[0].name}` returns a value built from {worst} separate `for_phase` blends: each one truncates, so their sum can fall outside the interval between the position's "
+                    "pure middlegame and pure endgame totals (by up to one unit per extra blend) whenever the two totals are close", tops[0])
+    rep.rule("C16-BLEND", n, 7, ok, "blend weights w and MAX - w of the same clamped w; one blend of the summed terms")
 
 
 # ---- C16-MIRROR ----------------------------------------------------------------------------
@@ -1107,6 +1120,9 @@ PH = "src/engine/eval/phased_eval.rs"
 PS = "src/engine/eval/piece_square_tables.rs"
 PA = "src/engine/eval/params.rs"
 MUTANTS = [
+    {"name": "every term blended on its own and the blends added (seed C16-8a)", "expect": "C16-BLEND/once",
+     "edits": [("src/engine/eval/mod.rs", "    let eval = game.incremental_eval.piece_square_tables\n        + material::eval::<TRACE>(game, trace)\n        + mobility_and_king_safety::eval::<TRACE>(game, trace)\n        + pawn_structure::eval::<TRACE>(game, trace);\n\n    eval.for_phase(game.incremental_eval.phase_value)",
+                "    let phase_value = game.incremental_eval.phase_value;\n\n    game.incremental_eval.piece_square_tables.for_phase(phase_value)\n        + material::eval::<TRACE>(game, trace).for_phase(phase_value)\n        + mobility_and_king_safety::eval::<TRACE>(game, trace).for_phase(phase_value)\n        + pawn_structure::eval::<TRACE>(game, trace).for_phase(phase_value)")]},
     {"name": "evaluation halved when few pieces are left through a Div<i32> on the packed word (shape of seed C16-7b)", "expect": "C16-PACK/word-op/div",
      "edits": [("src/engine/eval/phased_eval.rs", "impl std::ops::Neg for PhasedEval {", "impl std::ops::Div<i32> for PhasedEval {\n    type Output = Self;\n\n    fn div(self, rhs: i32) -> Self::Output {\n        Self(self.0 / rhs)\n    }\n}\n\nimpl std::ops::Neg for PhasedEval {"),
                ("src/engine/eval/mod.rs", "    eval.for_phase(game.incremental_eval.phase_value)\n}", "    let eval = if game.incremental_eval.phase_value == 2 { eval / 2 } else { eval };\n\n    eval.for_phase(game.incremental_eval.phase_value)\n}")]},
